@@ -35,3 +35,14 @@ End C10.
 Print Assumptions C10_tolerant.
 Print Assumptions C10_cache_after_scan.
 Print Assumptions C10_fault_sequences.
+
+(* document level: a cache file cut short while being written is never a DIFFERENT well-formed
+   document — a strict prefix of the token stream does not parse at all *)
+From Verif Require Import Json Writer JsonProofs PrefixProofs.
+Theorem C10_prefix : forall b r ts rest, strip_ws (to_json b r) = ts ++ rest -> rest <> [] -> parse ts = None.
+Proof. exact PrefixProofs.C10_prefix. Qed.
+Theorem C10_truncation_never_different : forall b r ts rest, to_json b r = ts ++ rest ->
+  parse ts = None \/ parse ts = parse (to_json b r).
+Proof. exact PrefixProofs.C10_truncation_never_different. Qed.
+Print Assumptions C10_prefix.
+Print Assumptions C10_truncation_never_different.
